@@ -300,6 +300,15 @@ Definition rotate_validator (payer : Z) (s : st) : outcome st :=
   if nbal s payer 0 <? recovery_fee then Err "insufficient funds" else
   Ok (set_nbal s (aadd (nbal s) payer 0 (- recovery_fee))).
 
+(* genesis round trip of x/multistaking and x/distributor (real ExportGenesis, emptied stores, real InitGenesis).
+   Exported and restored: pools, undelegation records, reward records, the distributor's treasury / votes / previous
+   proposer.  NOT part of the genesis state (C12 findings lost:multistaking/KeyPrefixPoolDelegator, .../KeyPrefixCompoundInfo):
+   the pools' delegator lists and the compound infos; the undelegation id counter is restored as the highest imported id *)
+Definition max_undel_id (l : list undel) : Z := fold_left (fun m u => Z.max m (u_id u)) l 0.
+Definition genesis_roundtrip (s : st) : outcome st :=
+  Ok (mkSt (time s) (height s) (slashed s) (stake s) (shares s) (ssup s) (modb s) (fee s) (treas s) (nbal s) (sbal s) (rew s)
+           (undels s) (max_undel_id (undels s)) [] (fun _ => (false, [], 0)) (votes s) (prev s) (tsup s)).
+
 Definition set_compound (who : Z) (all : bool) (ds : list Z) (s : st) : outcome st :=
   Ok (set_comp s (fun a => if a =? who then (all, ds, 0) else comp s a)).
 
@@ -459,6 +468,7 @@ Inductive op : Type :=
 | ORotateVal (payer : Z)                                (* recovery address rotation of the pool validator's account *)
 | OExternal (tag : Z)                                   (* an action of another module that is outside the model (the
                                                            spec checker judges its observation; the model takes it as given) *)
+| OGenesis                                              (* genesis export + re-import of multistaking and distributor *)
 | OBegin (dt : Z) (commit : list (Z * bool)) (proposer : Z) (possible : bool) (infl : Z)
 | OEnd.
 
@@ -483,6 +493,7 @@ Definition step (v : variant) (c : cfg) (o : op) (s : st) : outcome st :=
   | ORotate who to payer => rotate who to payer s
   | ORotateVal payer => rotate_validator payer s
   | OExternal _ => Ok s
+  | OGenesis => genesis_roundtrip s
   | OBegin dt commit p possible infl => begin_block v c dt commit p possible infl s
   | OEnd => end_block v c s
   end.
